@@ -62,6 +62,15 @@ type c04Result struct {
 func c04PreStates(k0 string) []Seed {
 	s := typeSeeds(k0)
 	s = append(s, Seed{Name: "expired", Prog: []Op{C("SET", k0, "v", "EX", "1"), {AdvMs: 3000}}})
+	// populated containers whose indexes, scores, ids and members line up with the numeric values of
+	// the alphabet (0, 1, -1, "1-1", "(1"): windows that are empty, reversed, or end inside the data
+	s = append(s,
+		Seed{Name: "list of 3", Prog: []Op{C("RPUSH", k0, "a", "b", "c")}},
+		Seed{Name: "hash of 3", Prog: []Op{C("HSET", k0, "f", "v", "0", "1", "", "x")}},
+		Seed{Name: "set of 3", Prog: []Op{C("SADD", k0, "a", "0", "1")}},
+		Seed{Name: "zset of 5", Prog: []Op{C("ZADD", k0, "-1", "a", "0", "b", "1", "c", "1", "d", "2", "e")}},
+		Seed{Name: "stream of 5", Prog: []Op{C("XADD", k0, "0-1", "f", "v"), C("XADD", k0, "1-0", "f", "v"), C("XADD", k0, "1-1", "f", "v"), C("XADD", k0, "1-2", "f", "v"), C("XADD", k0, "2-0", "f", "v")}},
+		Seed{Name: "number", Prog: []Op{C("SET", k0, "10")}})
 	return s
 }
 
@@ -536,7 +545,7 @@ func runC04() int {
 		"deep_prestate_max_args":       deepArgs,
 		"evaluations":                  inputs,
 		"distinct_nontrivial":          mutating,
-		"rule":                         "every registered command (+ SELECT, an unknown name, the empty command) x every argument count 0..3 over the 21-value adversarial alphabet (thorough: 4..6 with the full alphabet in the last two positions) x pre-state {missing, string, list, hash, set, zset, stream, expired}; non-trivial = the input changed the keyspace (then followed by wedge probes). Oracle: no panic, the call returns, no lock left held, probes complete, worker survives",
+		"rule":                         "every registered command (+ SELECT, an unknown name, the empty command) x every argument count 0..3 over the 21-value adversarial alphabet (thorough: 4..6 with the full alphabet in the last two positions) x pre-state {missing, string, list, hash, set, zset, stream, expired, and populated containers: list of 3, hash of 3, set of 3, zset of 5 with a tie, stream of 5, a number}; non-trivial = the input changed the keyspace (then followed by wedge probes). Oracle: no panic, the call returns, no lock left held, probes complete, worker survives",
 		"samples":                      samples,
 		"exhaustive":                   exhaustive,
 		"commands":                     len(cmds),
